@@ -16,12 +16,16 @@ import HexVerif.Lemmas.AsmJunk
                          of a batch is the result of compiling that source alone (each C++ compilation
                          constructs its own `Driver`, `Lexer`, `Parser`, symbol table and counters).
 
-  What is NOT covered by proof: the stages after the parser (`ValDecl::exprValue`, repaired by the D13
-  `fix:`; `Symbol::stackOffset`; `CodeBuffer::currentFrame`; ordered containers and label/constant/
-  string counters), and hexasm (see the lemmas on `Asm.tokenize` if present).  Those are covered by the
-  perturbation matrix of `./check C11` on the real code.
+  hexasm (`Hex.Asm` below): `Asm.run`, the model of the whole assembler from the source bytes, with
+  the same treatment of its lexer's `value`: `C11_asm_junk`.
+
+  What is NOT covered by proof: xcmp's stages after the parser (`ValDecl::exprValue`, repaired by the
+  D13 `fix:`; `Symbol::stackOffset`; `CodeBuffer::currentFrame`; ordered containers and label/constant/
+  string counters) and hexasm's `InstrLabel::labelValue` (set by the model's `resolve` before use).
+  Those are covered by the perturbation matrix of `./check C11` on the real code.
 -/
-namespace Hex.Xcmp
+namespace Hex.Properties.C11
+open Hex Hex.Xcmp
 
 theorem C11_tokens_junk (j1 j2 : Word) (src : List Byte) : tokensOutputJ j1 src = tokensOutputJ j2 src :=
   tokensOutputJ_indep j1 j2 src
@@ -46,14 +50,13 @@ example : (match lexAllJ 0xDEAD#32 (bytesOf "proc main() is 0(7)") with
 example : tokensOutputJ 0xDEAD#32 (bytesOf "proc main() is 0(7)") = tokensOutputJ 0#32 (bytesOf "proc main() is 0(7)") :=
   C11_tokens_junk _ _ _
 
-end Hex.Xcmp
 
-namespace Hex.Asm
+/-- hexasm: the outcome of the whole assembler model (image and directive list, diagnostic, or the
+    model's iteration bound) does not depend on the junk in the uninitialised `Lexer::value`: the token
+    sequences differ at most in the `value` field of tokens that are not NUMBER, and the parser reads
+    that field only in `parseInteger`, under `tok = NUMBER`. -/
+theorem C11_asm_junk (j1 j2 : Nat) (src : List Byte) : Asm.runJ j1 src = Asm.runJ j2 src := Asm.runJ_indep j1 j2 src
 
-/-- hexasm: the token sequence does not depend on the junk in `Lexer::value`, except in the `value`
-    field of tokens that are not NUMBER - which `Asm.parseProgram` never reads (`parseInteger` reads it
-    under `tok = NUMBER` only).  The parser-level statement is not proved yet. -/
-theorem C11_asm_tokens_junk (j1 j2 : Nat) (src : List Byte) : RToks (tokenizeJ j1 src) (tokenizeJ j2 src) :=
-  tokenizeJ_rel j1 j2 src
+theorem C11_asm_run_is_runJ (src : List Byte) : Asm.run src = Asm.runJ 0 src := Asm.run_eq_runJ src
 
-end Hex.Asm
+end Hex.Properties.C11
